@@ -14,10 +14,32 @@ na = {}       # id -> reason
 def claim(pid, text, note, design):
     claims[pid] = dict(text=text, note=note, design=design)
 
+claim("C02",
+      "Bounded symbolic model checking of the real silence code over histories: a silence created through Set, then k slots each with an arbitrary clock advance and an "
+      "arbitrary operation (new silence, API edit, expire, replicated merge of an arbitrary version, GC, snapshot reload, alert-GC callback); after every slot "
+      "Silencer.Mutes and the marker ids are compared, for all instants, with a direct evaluation of all stored silences.",
+      "Bounds: k=2 slots (quick) / 3 (thorough), <=2 silences, matcher/alert pool (equality, regex+negation, OR-ed sets, UTF-8 name), whole-second instants. "
+      "Single-threaded (no concurrent query/update). " + TRUSTED, "4 C02")
+claim("C04",
+      "The dedup decision function is compared with the property's rule for every previous log entry, every firing/resolved set over a 3-alert universe, every "
+      "repeat interval and instant; the repeat window is checked on the real DedupStage+SetNotifiesStage+nflog with GC at arbitrary instants and the tick time taken from the context.",
+      "Bounds: 3 alert hashes, 1 group/receiver, one repeat window. Timers and dispatcher restart are outside. " + TRUSTED, "4 C04")
+claim("C07",
+      "Route.Match on trees built by the real NewRoute is compared with a reference restated from the property for every tree shape up to 5 nodes, every assignment "
+      "of per-node matcher outcomes (symbolic label values) and continue flags; option inheritance is checked for all presence profiles with symbolic timer values.",
+      "Bounds: <=5 nodes, depth <=4, 9 (quick) / 13 (thorough) shapes; inheritance over a 3-level chain plus sibling. Regexp engine and YAML are outside. " + TRUSTED, "4 C07")
+claim("C09",
+      "Bounded symbolic model checking of the real silence merge code: inductive merge step from an arbitrary pre-state, delivery-order/batching/duplication convergence "
+      "of 3 versions over 2 ids on two instances incl. indexes and query agreement, and propagation of API create/expire through the broadcast bytes.",
+      "Bounds: <=3 versions, 2 ids, instants 1970..2200 with nanoseconds. Codec opaque, transport outside. " + TRUSTED, "4 C09")
 claim("C10",
       "Bounded symbolic model checking of the real nflog code: the merge step from an arbitrary pre-state (inductive), Log/Query/GC laws and "
       "delivery-order convergence are each decided by SMT for all instants/flags within the stated bounds; an unsat answer covers every input on that path.",
       "Bounds: <=3 entries, 2 keys, <=4 operations, instants 1970..2200. Codec opaque. " + TRUSTED, "4 C10")
+claim("C18",
+      "Histories of submissions, heartbeats, expiry and GC under a per-alert-name limit 1..3 on the real store+limit.Bucket code with symbolic end times (limit invariant, "
+      "re-sends accepted, refusals reported, GC only removes resolved); silence count/size limits through the real Set (create, in-place edit, replacing edit) incl. 'rejected leaves state untouched'.",
+      "Bounds: limit<=3, <=2N+3 operations, 3 silences. GET concurrency limiter (HTTP) is outside. " + TRUSTED, "4 C18")
 
 ALL = ["C%02d" % i for i in range(1, 21)]
 for p in ALL:
